@@ -118,6 +118,9 @@ def defaults(fn):
     return d
 
 
+CHECKS_FIRST = []
+
+
 def unbalanced(fn):
     for node in ast.walk(fn):
         if isinstance(node, ast.If) and ast.unparse(node.test).replace(' ', '') == "penalization_method=='unbalanced'":
@@ -126,6 +129,11 @@ def unbalanced(fn):
                          'self.add_linear_equality_constraint(terms,lagrange_multiplier[1],-ub_c)', 'return[]']
             if body[-4:] != want_tail or 'TypeError' not in body[0]:
                 raise SystemExit(f'slack_rule: unbalanced branch has an unexpected shape: {body}')
+            # round 8 (D76g): are both multipliers read BEFORE the first change of the model?
+            middle = body[1:-4]
+            if middle not in ([], ['(lagrange_multiplier[0],lagrange_multiplier[1])'], ['lagrange_multiplier[0],lagrange_multiplier[1]']):
+                raise SystemExit(f'slack_rule: unbalanced branch has unexpected statements before the loop: {middle}')
+            CHECKS_FIRST.append(bool(middle))
             tail = node.orelse
             if not (len(tail) == 1 and isinstance(tail[0], ast.Raise) and 'ValueError' in ast.unparse(tail[0])):
                 raise SystemExit('slack_rule: the `else` of the penalization_method dispatch is not `raise ValueError`')
@@ -170,6 +178,8 @@ def main():
              '/-- how the number of `log10` slack variables is computed: exactly (`len(str(S))`) or through the float `log10` -/',
              'inductive Log10Impl where', '  | decimalDigits | floatCeilLog10', 'deriving DecidableEq, Repr', '',
              f'/-- `num_dqm_vars` of `DiscreteQuadraticModel.add_linear_inequality_constraint` (log10) -/\ndef dqmNumDigits : Log10Impl := .{d10}', '',
+             '/-- `unbalanced`: both multipliers are read (`lagrange_multiplier[0], lagrange_multiplier[1]`) before the first change of the model -/',
+             f'def unbalancedChecksFirst : Bool := {b(CHECKS_FIRST[-1])}', '',
              'end Generated.SlackRule', '']
     text = '\n'.join(lines)
     old = open(OUT).read() if os.path.exists(OUT) else None
